@@ -52,9 +52,10 @@ def _maps(e, pool):
         out.append(("sym->expr", {s: fresh ** 2 + sp.Rational(1, 3)}))
     if len(scal) >= 2:
         out.append(("simultaneous", {scal[0]: scal[1] + 1, scal[1]: sp.Rational(3, 2)}))
-    for a in arr[:1]:
-        out.append(("array->array", {a: pool.k}))
-    return out[:7]
+    amaps = [("array->array", {a: pool.k}) for a in arr[:1]]
+    if len(arr) >= 2:
+        amaps.append(("array->array", {arr[0]: arr[1], arr[1]: pool.k}))
+    return amaps + out[:7 - len(amaps)]
 
 
 def _has_nested(e):
